@@ -102,6 +102,13 @@ CLAIMED['C12'] = dict(
     note='Trusted: rustc MIR and layout, the driver, 64-bit usize, flate2 expansion <= ~1032:1, amortised growth of Vec/HashMap. The exact 64 MiB + 8192 B/byte constant is not decided; the sum of bounded-constant sinks is reported.',
     technique='static analysis: taint from file-field reads to allocation sinks + interval (width) domain + loop classification')
 
+CLAIMED['C05'] = dict(
+    category='other',
+    text='Two static halves that must meet. Users: the panic-site inventory (Assert terminators, panic!/assert!, indexing, unwrap/expect, get/put_pixel, recursion) over the call-graph cone of every public accessor and rendering entry point; each site must be discharged by a caller contract (assert on a parameter in a pub fn; internal call sites must satisfy it themselves), a handle invariant (every Layer/Frame/Cel/Tilemap construction stores only asserted or table-derived indices), an interval/guard argument (incl. loop-variable bounds and the y - y0 relational fact), or a named data invariant I1..I12. Establishers: for each invariant the loader check that establishes it is located, shown to reject on its failing edge, to dominate the construction of the protected value and to be ?-propagated on every path up to read_aseprite. Eleven post-load panics found on the pinned tree were repaired by fix: commits; the rows now guard the repairs. Partial: the arithmetic of blend.rs (82 sites, enumerated) is not decided.',
+    design_ref='DESIGN.md section 4, C05 and section 5',
+    note='Trusted: rustc MIR, the driver, 64-bit usize, callers respect documented index contracts, image::ImageBuffer::from_raw succeeds when the buffer length matches. Establishing comparisons are checked for operands and direction, not re-derived arithmetically.',
+    technique='static analysis: panic-site inventory over the public-API cone + invariant/must-pass-through (dominance + error propagation) + interval domain')
+
 ALL = ['C%02d' % i for i in range(1, 20)]
 
 
